@@ -63,7 +63,7 @@ Theorem sqrt_Reserve_refines alloc segs n c cap : Arr_Proofs.ginv seg maxi (SCq 
     n' = SegModel.len (SegModel.reserve seg idx (Arr_Proofs.mst n c) cap) /\ Arr_Proofs.ginv seg maxi (SCq L) n' c.
 Proof. intros. eapply (Arr_Proofs.Reserve_refines seg idx alloc maxi (SCq L)); dq. Qed.
 
-Theorem sqrt_ShrinkTo_refines segs n c cap : Arr_Proofs.ginv seg maxi (SCq L) n c -> 0 <= cap < maxi -> idx n 0 < maxi ->
+Theorem sqrt_ShrinkTo_refines segs n c cap : Arr_Proofs.ginv seg maxi (SCq L) n c -> 0 <= cap < maxi ->
   exists n', Gen_ArrSqrt.ShrinkTo seg idx segs n c cap = Ok (tt, n') /\ n' <= n /\
     (exists st', SegModel.step seg idx (Arr_Proofs.mst n c) (SegModel.ShrinkTo cap) = Some st' /\ n' = SegModel.len st') /\
     Arr_Proofs.ginv seg maxi (SCq L) n' c.
@@ -130,7 +130,7 @@ Qed.
 
 Ltac dq2 := first [exact q_cnt_pos|exact q_idx_step|exact (q_idx_zero L HL)|exact q_seg_split|exact q_idx_small|dq].
 
-Theorem sqrt_ShrinkFit_refines segs n c : Arr_Proofs.ginv seg maxi (SCq L) n c -> idx n 0 < maxi ->
+Theorem sqrt_ShrinkFit_refines segs n c : Arr_Proofs.ginv seg maxi (SCq L) n c ->
   exists n', Gen_ArrSqrt.ShrinkFit seg idx segs n c = Ok (tt, n') /\ n' <= n /\
     (exists st', SegModel.step seg idx (Arr_Proofs.mst n c) SegModel.ShrinkFit = Some st' /\ n' = SegModel.len st') /\
     Arr_Proofs.ginv seg maxi (SCq L) n' c.
@@ -286,7 +286,7 @@ Theorem cnst_Reserve_refines alloc segs n c cap : Arr_Proofs.ginv seg maxi (SCc 
     n' = SegModel.len (SegModel.reserve seg idx (Arr_Proofs.mst n c) cap) /\ Arr_Proofs.ginv seg maxi (SCc L) n' c.
 Proof. intros. eapply (Arr_Proofs.Reserve_refines seg idx alloc maxi (SCc L)); dc. Qed.
 
-Theorem cnst_ShrinkTo_refines segs n c cap : Arr_Proofs.ginv seg maxi (SCc L) n c -> 0 <= cap < maxi -> idx n 0 < maxi ->
+Theorem cnst_ShrinkTo_refines segs n c cap : Arr_Proofs.ginv seg maxi (SCc L) n c -> 0 <= cap < maxi ->
   exists n', Gen_ArrCnst.ShrinkTo seg idx segs n c cap = Ok (tt, n') /\ n' <= n /\
     (exists st', SegModel.step seg idx (Arr_Proofs.mst n c) (SegModel.ShrinkTo cap) = Some st' /\ n' = SegModel.len st') /\
     Arr_Proofs.ginv seg maxi (SCc L) n' c.
